@@ -84,6 +84,7 @@ FreshCx(e, run) ==
      digs |-> <<>>,      \* C06: sequence of [sv, aid, dg] seen for "init(v); compute(args)" on any object of this run
      opdg |-> -1,        \* C06: operator probe digest (first seen)
      armed |-> 0,        \* C14: fault armed at this relative index (0 = none)
+     disarmed |-> FALSE, \* C14: the last Arm line removed the fault (F0): from here on the run is the fault-free retry
      nfault |-> 0,       \* C14: Threw(fault) lines seen
      prevdesc |-> "",
      lastObs |-> <<>>,
@@ -178,20 +179,23 @@ EvThrew(e) ==
     LET ncx == [cx EXCEPT !.call.state = "threw", !.call.x = e.x, !.sinceInit = IF e.f = "init" THEN -1 ELSE IF e.f = "compute" /\ @ >= 0 THEN @ + 1 ELSE @,
                           !.nfault = IF e.x = "fault" THEN @ + 1 ELSE @,
                           !.armed = IF e.x = "fault" THEN 0 ELSE @]
+        \* C14: once the fault is gone the object is usable again - the fault-free retry of a call that succeeded before the fault was
+        \* armed must not fail (invalid_argument is the caller's own doing: unsupported rule, zero vector, compute() without init())
+        uaf == If(~(cx.disarmed /\ e.f \in {"init", "compute"} /\ e.x # "invalid_argument"), "UsableAfterFault")
     IN
     CASE e.x = "fault" ->
-           Res(U_OpThrows(s), If(G_OpThrows(s), "G:OpThrows") \cup If(cx.armed # 0 /\ e.tag = cx.armed, "SameException"), ncx)
+           Res(U_OpThrows(s), uaf \cup If(G_OpThrows(s), "G:OpThrows") \cup If(cx.armed # 0 /\ e.tag = cx.armed, "SameException"), ncx)
       [] e.x = "invalid_argument" /\ s.pc = "idle" -> Res(s, {}, ncx)     \* already unwound by a FacThrow event, or constructor
       [] e.x = "invalid_argument" /\ s.pc = "init" -> Res(U_InitThrowZero(s), If(cx.call.sv = 99, "UnexpectedInitThrow"), ncx)
       [] e.x = "invalid_argument" /\ s.pc = "c_retr" -> Res(U_RetrieveThrow(s), {}, ncx)
       [] e.x = "invalid_argument" /\ s.pc \in {"c_sort", "c_sorting"} -> Res(U_SortThrow(s), {}, ncx)
       \* any other exception type / place: documented types are invalid_argument, runtime_error, logic_error
       [] OTHER -> Res([s EXCEPT !.pc = "idle", !.exc = "fault", !.fnext = 0, !.fto = 0, !.facOK = FALSE, !.inited = FALSE],
-                      If(e.x \in {"runtime_error", "logic_error", "invalid_argument"}, "UndocumentedException")
-, ncx)
+                      uaf \cup If(e.x \in {"runtime_error", "logic_error", "invalid_argument"}, "UndocumentedException"), ncx)
 
 \* a swallowed fault shows as FaultCountMatches at the next Obs (faults thrown by the wrapper vs. Threw lines seen)
-EvArm(e) == Res(s, {}, [cx EXCEPT !.armed = e.k])
+\* disarmed: the harness has explicitly removed the fault (F0) - from here on the run is the fault-free retry
+EvArm(e) == Res(s, {}, [cx EXCEPT !.armed = e.k, !.disarmed = (e.k = 0)])
 
 \* C06: the operator behaves the same whenever it is probed
 EvOpProbe(e) ==
@@ -392,6 +396,7 @@ Dispatch(e) ==
       [] e.e = "MSel" -> EvMSel(e)
       [] e.e = "End" -> EvEnd(e)
       [] e.e = "Abort" -> EvAbort(e)
+      [] e.e = "Reshift" -> Res(s, {}, cx)
       [] e.e = "OutOfRange" -> Res(s, {Hit("OutOfRange")}, cx)
       [] OTHER -> Res(s, {Hit("UnknownEvent:" \o e.e)}, cx)
 
